@@ -98,7 +98,7 @@ def judge(ctx, spec, sx, q, expected, bodies):
 def explore(ctx, tier, search=False):
     BaseHandler = load()
     rng = ctx.rng("four-bodies" + ("-search" if search else ""))
-    n_ds = 60 if tier == "quick" else 600
+    n_ds = 200 if tier == "quick" else 1500
     if search:
         n_ds = 200
     cases = []
